@@ -1,5 +1,6 @@
 """C18 - FallbackClient: reads fall through in order, writes touch only the primary (decided)."""
 import ast
+from collections import namedtuple
 
 from .model import AnalysisError, node_src, is_self_attr, call_name
 from .paths import Interp, Domain, Env, TOP, NONE, Const, Exc, ORD, fmt_trace, Opaque
@@ -19,50 +20,79 @@ WRITERS = ("set", "add", "replace", "append", "prepend", "cas", "delete", "incr"
 READERS = ("get", "get_many", "gets", "gets_many")
 
 
-class ReaderDomain(Domain):
-    async_enabled = False
+BoundCall = namedtuple("BoundCall", "obj attr")
 
-    def __init__(self, prog, fn):
+
+class ReaderDomain(Domain):
+    """A read of FallbackClient with two caches whose answers are scripted: `script` = ('miss','miss'), ('hit',),
+    ('miss','hit').  Private helper methods are inlined; getattr(cache, <constant name>) is a bound method."""
+
+    async_enabled = False
+    subscript_may_raise = False
+    unpack_may_raise = False
+    global_keys = ("calls", "pos")
+
+    def __init__(self, prog, fn, script, miss_value):
         super().__init__(prog, fn)
-        self.calls = []
+        self.script = script
+        self.miss_value = miss_value
+        self.other_cache_use = []
 
     def attr_load(self, objval, node, state):
         if is_self_attr(node, "caches"):
             return Opaque("caches")
+        if isinstance(objval, Opaque) and objval.tag.startswith("cache#"):
+            return BoundCall(objval, node.attr)
         return TOP
+
+    def subscript_load(self, objval, idxval, node, state):
+        if objval == Opaque("caches") and isinstance(idxval, Const) and isinstance(idxval.v, int) and idxval.v >= 0:
+            return Opaque("cache#%d" % (idxval.v + 1)), False
+        return TOP, False
 
     def for_next(self, node, itval, state):
         if itval == Opaque("caches"):
-            return [(Opaque("cache"), state.set("iter", state.get("iter", 0) + 1 if state.get("iter", 0) < 2 else 2).set("calls_this_iter", 0))]
+            k = state.get("pos", 0)
+            if k < 2:
+                return [(Opaque("cache#%d" % (k + 1)), state.set("pos", k + 1))]
+            return []
         return [(TOP, state)]
 
+    def for_exhausted(self, node, itval, state):
+        if itval == Opaque("caches"):
+            return state if state.get("pos", 0) >= 2 else None
+        return state
+
     def truth(self, v, state=None):
-        if isinstance(v, Opaque) and v.tag == "result":
-            return None
+        if v == Opaque("hit-value"):
+            return True
         return super().truth(v, state)
 
+    def never_none(self, v):
+        return v == Opaque("hit-value") or super().never_none(v)
+
     def call(self, node, fval, args, kwargs, state):
-        if isinstance(node.func, ast.Attribute) and isinstance(node.func.value, ast.Name) and state.get(node.func.value.id) == Opaque("cache"):
-            self.calls.append((node, state))
-            st = state.set("calls_this_iter", state.get("calls_this_iter", 0) + 1).set("total_calls", min(3, state.get("total_calls", 0) + 1))
-            return [("ok", Opaque("result"), st)]
+        name = call_name(node)
+        if name == "getattr" and len(args) == 2 and isinstance(args[0], Opaque) and args[0].tag.startswith("cache#") and isinstance(args[1], Const) and isinstance(args[1].v, str):
+            return [("ok", BoundCall(args[0], args[1].v), state)]
+        if isinstance(fval, BoundCall):
+            calls = state.get("calls", ())
+            n = len(calls)
+            answer = self.script[n] if n < len(self.script) else "miss"
+            rec = (fval.obj.tag, fval.attr, tuple(args), tuple(sorted(kwargs.items())))
+            st = state.set("calls", calls + (rec,))
+            val = {"hit": Opaque("hit-value"), "hit-falsy": Const(b"")}.get(answer, self.miss_value)
+            return [("ok", val, st)]
+        if name in ("reversed", "sorted", "list", "tuple", "iter") and args and args[0] == Opaque("caches"):
+            self.other_cache_use.append(node)
+            return [("ok", TOP, state)]
+        if name.startswith("self._") and name.count(".") == 1 and self.prog is not None:
+            m = self.prog.method("FallbackClient", name[5:], required=False)
+            if m is not None:
+                res = self.inline(node, m, args, kwargs, state)
+                if res is not None:
+                    return res
         return [("ok", TOP, state)]
-
-    def assume(self, expr, value, branch, state):
-        if value == Opaque("result"):
-            return state.set("hit", branch)
-        return state
-
-    def refine_compare(self, node, op, lexpr, l, rexpr, r, branch, state):
-        if l == Opaque("result") or r == Opaque("result"):
-            pos = isinstance(op, (ast.IsNot, ast.NotEq))
-            return state.set("hit", branch if pos else not branch)
-        return state
-
-    def compare(self, node, op, l, r, state):
-        if l == Opaque("result") or r == Opaque("result"):
-            return TOP
-        return super().compare(node, op, l, r, state)
 
 
 def run(chk):
@@ -119,7 +149,7 @@ def run(chk):
         r1.expect(not problems, "FallbackClient.%s -> self.caches[0].%s(%s)" % (name, name, ", ".join(p.name for p in f.pos_params())), "FallbackClient.%s:writer" % name, "FallbackClient.%s: %s" % (name, "; ".join(problems)), fn=f, node=f.node)
     r1.floor("mutating methods", n_w, 11)
 
-    r2 = chk.rule("C18.R2", "each read iterates self.caches in order, calls the same-named method once per iteration with the caller's argument, returns from inside the loop at the first hit and touches no cache afterwards")
+    r2 = chk.rule("C18.R2", "each read consults self.caches in the configured order, calls the same-named method once per cache with the caller's argument, returns the first hit and consults no cache after it")
     r3 = chk.rule("C18.R3", "each reader's hit test is false on the delegate's miss value and true on a hit")
     n_r = 0
     for name in READERS:
@@ -128,98 +158,61 @@ def run(chk):
             r2.fail("FallbackClient.%s:missing" % name, "FallbackClient lacks the read method %s" % name, file=fb.module.rel, line=fb.node.lineno)
             continue
         n_r += 1
-        loops = [n for n in walk_no_nested(f.node) if isinstance(n, ast.For)]
-        problems = []
-        if len(loops) != 1:
-            problems.append("%d for-loops (exactly one expected)" % len(loops))
-        else:
-            lp = loops[0]
-            if not is_self_attr(lp.iter, "caches"):
-                problems.append("the loop iterates `%s` instead of self.caches in its configured order" % node_src(lp.iter))
-            if not isinstance(lp.target, ast.Name):
-                problems.append("loop target is not a simple name")
-        if not problems:
-            lp = loops[0]
-            dom = ReaderDomain(prog, f)
-            outs = Interp(dom, f.node, prog).run(Env())
-            sites = {c.lineno: c for c, s in dom.calls}
-            if len(sites) != 1:
-                problems.append("%d call sites on a cache (one expected)" % len(sites))
-            for c in sites.values():
-                if c.func.attr != name:
-                    problems.append("calls .%s on the caches instead of .%s" % (c.func.attr, name))
-                mine = [p.name for p in f.pos_params()]
-                got = [a.id if isinstance(a, ast.Name) else node_src(a) for a in c.args] + ["%s=%s" % (k.arg, node_src(k.value)) for k in c.keywords]
-                if got != mine:
-                    problems.append("passes (%s) instead of the caller's (%s)" % (", ".join(got), ", ".join(mine)))
-                if not any(y is c for y in ast.walk(lp)):
-                    problems.append("the cache call is outside the loop")
-            for c, s in dom.calls:
-                if s.get("calls_this_iter", 0) >= 1:
-                    problems.append("a cache can be consulted twice in one iteration")
-                if s.get("hit") is True:
-                    problems.append("a cache is consulted after an earlier one answered (call at line %d reachable with a hit pending)" % c.lineno)
-            # exits: a return of the result must come from a hit state, inside the loop
-            hit_returns = 0
-            for s, v, t in outs.of("ret"):
-                if v == Opaque("result"):
-                    hit_returns += 1
-                    if s.get("hit") is not True:
-                        problems.append("returns a cache's result on a path where the hit test %s" % ("failed" if s.get("hit") is False else "was not evaluated"))
-            if not hit_returns:
-                problems.append("never returns a cache's result")
-            # after a hit, the loop must not continue
-            for c, s in dom.calls:
-                pass
-            # hit state must lead to return: no path with hit=True reaches the loop head again
-            for s, v, t in outs.of("ret"):
-                if s.get("hit") is True and v != Opaque("result"):
-                    problems.append("a hit does not return the answering cache's result (returns %s)" % (v,))
-        r2.expect(not problems, "FallbackClient.%s: in-order loop, one %s call per cache, return at first hit" % (name, name), "FallbackClient.%s:reader" % name, "FallbackClient.%s: %s" % (name, "; ".join(dict.fromkeys(problems))), fn=f, node=f.node)
-        # R3 hit test vs miss value
         cf, miss, kind = rules_C07.miss_shape(prog, name)
         miss = rules_C07.subst_defaults(miss, cf, f)
-        tests = [n for n in walk_no_nested(f.node) if isinstance(n, ast.If)]
-        if len(tests) != 1:
-            r3.fail("FallbackClient.%s:hit-test-shape" % name, "expected one hit test, found %d" % len(tests), fn=f)
-            continue
-        t = tests[0].test
-        verdict = _eval_hit_test(t, miss)
-        r3.expect(verdict is False, "FallbackClient.%s: hit test `%s` is false on the miss value %s" % (name, node_src(t), rules_C07.show(miss)), "FallbackClient.%s:hit-test-vs-miss" % name, "the hit test `%s` of FallbackClient.%s is %s on %s, the value Client.%s returns on a miss: the first cache always 'answers' and the fallback caches are never consulted" % (node_src(t), name, {True: "true", None: "not decidable"}[verdict] if verdict is not False else "", rules_C07.show(miss), name), fn=f, node=tests[0])
+        miss_val = _abstract(miss)
+        params = {p.name: Opaque("arg:" + p.name) for p in f.pos_params()}
+        want_args = tuple(params[p.name] for p in f.pos_params())
+        problems, hit_problem = [], None
+        scripts = [("hit",), ("miss", "hit"), ("miss", "miss")]
+        if kind == "single" and miss_val == Const(None):
+            scripts.append(("hit-falsy",))  # a stored b"" / 0 is a hit, not a miss
+        for script in scripts:
+            dom = ReaderDomain(prog, f, script, miss_val)
+            outs = Interp(dom, f.node, prog).run(Env(dict(params)))
+            if dom.other_cache_use:
+                problems.append("self.caches is traversed through `%s`, not in its configured order" % node_src(dom.other_cache_use[0]))
+            if outs.of("exc"):
+                problems.append("raises %s with answers %s" % ([e.cls for s_, e, t_ in outs.of("exc")], list(script)))
+            for s_, v, t_ in outs.of("ret"):
+                calls = s_.get("calls", ())
+                for (who, attr, args, kw) in calls:
+                    if attr != name:
+                        problems.append("calls .%s on a cache instead of .%s" % (attr, name))
+                    if args != want_args or kw:
+                        problems.append("passes %s instead of the caller's (%s)" % ([str(a) for a in args], ", ".join(p.name for p in f.pos_params())))
+                order = [c[0] for c in calls]
+                hits = [i for i, a in enumerate(script) if a.startswith("hit")]
+                want_n = hits[0] + 1 if hits else 2
+                want_v = {"hit": Opaque("hit-value"), "hit-falsy": Const(b"")}.get(script[hits[0]]) if hits else None
+                if order != ["cache#%d" % (i + 1) for i in range(len(order))]:
+                    problems.append("consults the caches as %s, not in the configured order" % order)
+                if hits:
+                    if len(calls) > want_n:
+                        problems.append("consults %d caches although cache %d answered%s (answers %s)" % (len(calls), want_n, " with a falsy but present value (b'')" if "hit-falsy" in script else "", list(script)))
+                    elif len(calls) < want_n:
+                        hit_problem = hit_problem or "with answers %s only %d cache(s) are consulted: the miss value %s of the first cache is taken for a hit" % (list(script), len(calls), rules_C07.show(miss))
+                    elif v != want_v:
+                        problems.append("returns %s instead of the answering cache's result (answers %s)" % (v, list(script)))
+                else:
+                    if len(calls) < 2:
+                        hit_problem = hit_problem or "when every cache reports a miss (%s) only %d of 2 caches are consulted: the miss value is taken for a hit, the first cache always 'answers' and the fallback caches are never consulted" % (rules_C07.show(miss), len(calls))
+            if not outs.of("ret") and not outs.of("exc"):
+                problems.append("never returns")
+        r2.expect(not problems, "FallbackClient.%s: in-order, one %s call per cache, first hit returned, nothing consulted after it" % (name, name), "FallbackClient.%s:reader" % name, "FallbackClient.%s: %s" % (name, "; ".join(dict.fromkeys(problems))), fn=f, node=f.node)
+        r3.expect(hit_problem is None, "FallbackClient.%s: the miss value %s is not taken for a hit" % (name, rules_C07.show(miss)), "FallbackClient.%s:hit-test-vs-miss" % name, "FallbackClient.%s: %s" % (name, hit_problem), fn=f, node=f.node)
     r2.floor("read methods", n_r, 4)
     chk.assume("every cache passed to FallbackClient has the Client interface and Client's miss conventions")
 
 
-def _eval_hit_test(test, miss):
-    """Evaluate the hit test on the miss value term.  -> True / False / None"""
-    def val(t):
-        if t[0] == "const":
-            return eval(t[1], {}, {})
-        if t[0] == "emptydict":
-            return {}
-        if t[0] == "emptylist":
-            return []
-        if t[0] == "tuple":
-            return tuple(val(x) for x in t[1:])
-        raise ValueError
-    try:
-        m = val(miss)
-    except Exception:
-        return None
-    if isinstance(test, ast.Name):
-        return bool(m)
-    if isinstance(test, ast.UnaryOp) and isinstance(test.op, ast.Not):
-        r = _eval_hit_test(test.operand, miss)
-        return None if r is None else not r
-    if isinstance(test, ast.Compare) and len(test.ops) == 1 and isinstance(test.left, ast.Name) and isinstance(test.comparators[0], ast.Constant):
-        c = test.comparators[0].value
-        op = test.ops[0]
-        if isinstance(op, ast.IsNot):
-            return m is not c
-        if isinstance(op, ast.Is):
-            return m is c
-        if isinstance(op, ast.NotEq):
-            return m != c
-        if isinstance(op, ast.Eq):
-            return m == c
-    return None
+def _abstract(t):
+    """Abstract value of a miss term."""
+    from .paths import TupleV
+
+    if t[0] == "const":
+        return Const(eval(t[1], {}, {}))
+    if t[0] in ("emptydict", "emptylist"):
+        return TupleV(())
+    if t[0] == "tuple":
+        return TupleV(tuple(_abstract(x) for x in t[1:]))
+    return TOP
